@@ -318,6 +318,9 @@ func TestVerifC10ScramblesuitHandshake(t *testing.T) {
 	rapid.Check(t, func(rt *rapid.T) {
 		h := vf10GenHS(rt)
 		msg, r := vf10RunHS(h)
+		if vf10Unstoppable(msg) {
+			vf10Abort("TestVerifC10ScramblesuitHandshake", msg+"\n"+h.describe(r))
+		}
 		if msg != "" {
 			rt.Fatalf("%s\n%s", msg, h.describe(r))
 		}
@@ -372,6 +375,9 @@ func FuzzVerifC10ScramblesuitHandshake(f *testing.F) {
 	f.Fuzz(func(t *testing.T, pattern, plan []byte, a uint32, b uint16) {
 		h := vf10DecodeHS(pattern, plan, a, b)
 		msg, r := vf10RunHS(h)
+		if vf10Unstoppable(msg) {
+			vf10Abort("FuzzVerifC10ScramblesuitHandshake", msg+"\n"+h.describe(r)+fmt.Sprintf("\n  fuzz input: pattern=%x plan=%x a=%#x b=%#x", pattern, plan, a, b))
+		}
 		if msg != "" {
 			t.Fatalf("%s\n%s", msg, h.describe(r))
 		}
@@ -401,10 +407,8 @@ func TestVerifC10ScramblesuitHandshakeMemory(t *testing.T) {
 		// wire is held by the harness, not by the client
 		cl.n.Inject(wire.B, chunk)
 		cl.n.ReleaseAll(wire.B)
-		if err := cl.n.WaitQuiescent(wire.A); err != nil {
-			if err2 := cl.n.WaitQuiescentFor(vf10WedgeExtra, wire.A); err2 != nil {
-				t.Fatalf("VIOL[c10-scramblesuit-wedge]: %v", err2)
-			}
+		if msg := cl.quiesce(); msg != "" {
+			vf10Abort("TestVerifC10ScramblesuitHandshakeMemory", msg)
 		}
 	}
 	runtime.GC()
